@@ -80,6 +80,9 @@ class C17(CacheProp):
                     used = sum(int(x.split(":")[1]) for x in d.get("costs", []))
                     if (kadd - kev) % M64 != nkeys:
                         fails.append("op %d: KeysAdded-KeysEvicted=%d but %d keys are accounted" % (st["n"], (kadd - kev) % M64, nkeys))
+                    nstore = len(d.get("store", []))
+                    if "profile:collide" not in case.tags and (kadd - kev) % M64 != nstore:
+                        fails.append("op %d: KeysAdded-KeysEvicted=%d but %d keys are resident in the map" % (st["n"], (kadd - kev) % M64, nstore))
                     if (cadd - cev) % M64 != used % M64:
                         fails.append("op %d: CostAdded-CostEvicted=%d but used=%d" % (st["n"], (cadd - cev) % M64, used))
         return fails
